@@ -263,10 +263,32 @@ def guarded_by_structure(call, root, fn=None):
 def pytree_skel(facts):
     pyt = parse("_pytree_type.py")
     chk = find_def(pyt, "_MetaPyTree", "_check")
-    sk = {"flattenInFinally": "unknown", "flattenRestores": "unknown", "treepathInFinally": "unknown", "treepathGuarded": "unknown"}
+    sk = {"flattenInFinally": "unknown", "flattenRestores": "unknown", "treepathInFinally": "unknown", "treepathGuarded": "unknown",
+          "flattenPassesIsLeaf": False}
     facts["pytree_skel"] = sk
     if chk is None:
         return
+    # every flattening of the checked object asks `is_leaf` at every node: the keyword is a name that is only ever bound to
+    # a function defined in `_check` (or to another such name), never to None or to a conditional expression
+    fdefs = {n.name for n in ast.walk(chk) if isinstance(n, ast.FunctionDef) and n is not chk}
+    aliases = {}
+    for n in ast.walk(chk):
+        if isinstance(n, ast.Assign):
+            for t in n.targets:
+                for nm in ([t] if isinstance(t, ast.Name) else []):
+                    aliases.setdefault(nm.id, []).append(n.value)
+
+    def is_fn(name, depth=0):
+        if depth > 4:
+            return False
+        vals = aliases.get(name, [])
+        if name in fdefs and not vals:
+            return True
+        return bool(vals or name in fdefs) and all(isinstance(v, ast.Name) and is_fn(v.id, depth + 1) for v in vals)
+
+    flats = [c for c in ast.walk(chk) if isinstance(c, ast.Call) and call_name(c) == "tree_flatten" and c.args and ast.unparse(c.args[0]) == "obj"]
+    sk["flattenPassesIsLeaf"] = bool(flats) and all(
+        any(k.arg == "is_leaf" and isinstance(k.value, ast.Name) and is_fn(k.value.id) for k in c.keywords) for c in flats)
     for node in ast.walk(chk):
         if isinstance(node, ast.Try) and calls_in(node.body, "tree_flatten"):
             clears = calls_in(node.finalbody, "clear_treeflatten_memo")
@@ -376,7 +398,10 @@ def decorator_skel(facts):
         elif ss and all(len(c.args) == 1 and isinstance(c.args[0], ast.Name) for c in ss):
             w["messageCurrent"] = False
         # fn is called exactly once on the accepted path
-        facts["impl_fn_calls"] = len([c for c in calls_in([impl_fn], "fn") if isinstance(c.func, ast.Name)])
+        fn_calls = [c for c in calls_in([impl_fn], "fn") if isinstance(c.func, ast.Name)]
+        facts["impl_fn_calls"] = len(fn_calls)
+        # ... and that call hands over the caller's own argument list
+        facts["impl_fn_call_args"] = [ast.unparse(c)[3:-1] for c in fn_calls]
 
 
 EXTRA_EXTRACTORS = [pytree_skel, decorator_skel]
@@ -450,6 +475,8 @@ namespace JV.Generated
 
 /-! exception skeleton of `_MetaPyTree._check` (`none` = construct not recognised) -/
 def flattenInFinally : Option Bool := {ob(ps['flattenInFinally'])}
+/-- every `tree_flatten(obj, ...)` of `_check` passes an `is_leaf` function (never None) -/
+def flattenPassesIsLeaf : Bool := {lean_bool(ps['flattenPassesIsLeaf'])}
 def flattenRestores : Option Bool := {ob(ps['flattenRestores'])}
 def treepathInFinally : Option Bool := {ob(ps['treepathInFinally'])}
 def treepathGuarded : Option Bool := {ob(ps['treepathGuarded'])}
@@ -465,6 +492,8 @@ def annErrFirst : Option Bool := {ob(ws['annErrFirst'])}
 def messageCurrent : Option Bool := {ob(ws['messageCurrent'])}
 /-- number of syntactic calls of the wrapped function inside `wrapped_fn_impl` -/
 def implFnCalls : Nat := {facts.get('impl_fn_calls', 0)}
+/-- the argument lists of those calls, as written -/
+def implFnCallArgs : List String := {lean_list([lean_str(x) for x in facts.get('impl_fn_call_args', [])])}
 
 end JV.Generated
 """
@@ -479,6 +508,12 @@ EXTRA_RENDERERS = []
 
 
 # --------------------------------------------------------------------------- dtype tables (C03 / C15 / C20)
+
+
+def re_fullmatch(pat, s):
+    import re
+
+    return re.fullmatch(pat, s) is not None
 
 
 def dtype_tables(facts):
@@ -537,6 +572,24 @@ def dtype_tables(facts):
                         if isinstance(st, ast.Assign) and isinstance(st.value, ast.Attribute) and st.value.attr == "name":
                             canonical = True
     facts["np_canonical_name"] = canonical
+    # how the name is cut out of repr(obj.dtype) for dtype objects that are neither NumPy-like nor strings
+    rule = "unknown"
+    if fn is not None:
+        cuts = []
+        for node in walk_with_helpers(fn, tree):
+            if isinstance(node, ast.Assign) and "repr(" in ast.unparse(node.value) and "dtype" in ast.unparse(node.value):
+                tgt, val = ast.unparse(node.targets[0]), ast.unparse(node.value)
+                if tgt in ("(*_, dtype)", "*_, dtype") and re_fullmatch(r"repr\((obj\.)?dtype\)\.rsplit\('\.', 1\)", val):
+                    cuts.append("lastComponent")
+                elif tgt == "dtype" and re_fullmatch(r"repr\((obj\.)?dtype\)\.rsplit\('\.', 1\)\[-1\]", val):
+                    cuts.append("lastComponent")
+                elif tgt in ("(_, _, dtype)", "_, _, dtype") and re_fullmatch(r"repr\((obj\.)?dtype\)\.partition\('\.'\)", val):
+                    cuts.append("afterFirstDot")
+                else:
+                    cuts.append("unknown")
+        if len(cuts) == 1:
+            rule = cuts[0]
+    facts["duck_repr_rule"] = rule
 
 
 def render_dtypes(facts):
@@ -547,7 +600,7 @@ def render_dtypes(facts):
         spec = ".any" if d == "ANY" else ".names " + lean_list([lean_str(x) for x in d])
         rows.append(f"({lean_str(name)}, {spec})")
     txt = f"""/- GENERATED by harness/extract.py from {SRC}/_array_types.py on every run. Do not edit. -/
-import JaxVerif.Model.Core
+import JaxVerif.Model.Dtype
 
 namespace JV.Generated
 
@@ -560,6 +613,9 @@ def dtypeUnknown : List String := {lean_list([lean_str(x) for x in facts['dtype_
 
 /-- `__instancecheck_str__` prefers `dtype.name` for NumPy dtypes of kind i/u/f/c -/
 def npCanonicalName : Bool := {lean_bool(facts['np_canonical_name'])}
+
+/-- how the name is cut out of `repr(obj.dtype)` for dtype objects of other libraries -/
+def duckReprRule : ReprRule := .{facts['duck_repr_rule']}
 
 end JV.Generated
 """
@@ -670,7 +726,7 @@ def hook_facts(facts):
     h = {
         "defDecorator": "unknown", "classDecorator": "unknown", "copiesLocation": False, "importRule": "unknown", "visitors": [],
         "shouldInstrument": "unknown", "insertsAtFront": False, "uninstallRemoves": False, "onlySourceLoaders": False,
-        "patchScope": "unknown", "tagHasChecker": False, "tagVersion": 0,
+        "patchScope": "unknown", "tagHasChecker": False, "tagVersion": 0, "compileIsolated": False, "keyChain": "unknown",
     }
     facts["hook"] = h
     tr = find_def(tree, "JaxtypingTransformer")
@@ -706,6 +762,52 @@ def hook_facts(facts):
         vm = find_def(tr, "visit_Module")
         if vm is not None:
             h["importRule"] = import_rule(vm)
+    # the loader's two `compile` calls do not inherit `from __future__` flags of the hook's own module: each passes
+    # `dont_inherit=True` (directly or through a `**options` dict literal holding it), or the hook module has no such import
+    stc = find_def(tree, "_JaxtypingLoader", "source_to_code")
+    if stc is not None:
+        opts = {}
+        for n in ast.walk(stc):
+            if isinstance(n, ast.Assign) and len(n.targets) == 1 and isinstance(n.targets[0], ast.Name) and isinstance(n.value, ast.Dict):
+                opts[n.targets[0].id] = {k.value: ast.unparse(v) for k, v in zip(n.value.keys, n.value.values) if isinstance(k, ast.Constant)}
+        comps = [c for c in ast.walk(stc) if isinstance(c, ast.Call) and (call_name(c) == "compile" or (c.args and ast.unparse(c.args[0]) == "compile"))]
+
+        def isolated(c):
+            for k in c.keywords:
+                if k.arg == "dont_inherit" and ast.unparse(k.value) == "True":
+                    return True
+                if k.arg is None and isinstance(k.value, ast.Name) and opts.get(k.value.id, {}).get("dont_inherit") == "True":
+                    return True
+            return False
+
+        own_future = any(isinstance(n, ast.ImportFrom) and n.module == "__future__" for n in tree.body)
+        h["compileIsolated"] = len(comps) >= 2 and (all(isolated(c) for c in comps) or not own_future) and all(isolated(c) for c in comps)
+    # one key for everything: the decorator written into the module looks the typechecker up under `self.hash`, the
+    # table is filled under `self.hash`, `self.hash` is the md5 of the typechecker string ("0" for None), and the same
+    # value names the bytecode file
+    tcc = find_def(tree, "Typechecker")
+    if tcc is not None:
+        ga, init_, gh = find_def(tcc, "get_ast"), find_def(tcc, "__init__"), find_def(tcc, "get_hash")
+        emb = False
+        if ga is not None:
+            for js in [n for n in ast.walk(ga) if isinstance(n, ast.JoinedStr)]:
+                for a, b, c in zip(js.values, js.values[1:], js.values[2:]):
+                    if isinstance(a, ast.Constant) and str(a.value).endswith("Typechecker.lookup['") and isinstance(b, ast.FormattedValue) \
+                            and ast.unparse(b.value) == "self.hash" and b.format_spec is None and b.conversion == -1 \
+                            and isinstance(c, ast.Constant) and str(c.value).startswith("']"):
+                        emb = True
+        stores = [n for n in ast.walk(init_) if isinstance(n, ast.Assign) and isinstance(n.targets[0], ast.Subscript)
+                  and ast.unparse(n.targets[0].value).endswith("lookup")] if init_ is not None else []
+        filled = bool(stores) and all(ast.unparse(n.targets[0].slice) == "self.hash" for n in stores)
+        hashes = [ast.unparse(n.value) for n in ast.walk(init_) if isinstance(n, ast.Assign) and ast.unparse(n.targets[0]) == "self.hash"] if init_ is not None else []
+        md5 = sorted(hashes) == sorted(["hashlib.md5(typechecker.encode('utf-8')).hexdigest()", "'0'"])
+        gh_ok = gh is not None and [ast.unparse(r.value) for r in ast.walk(gh) if isinstance(r, ast.Return)] == ["self.hash"]
+        ld2 = find_def(tree, "_JaxtypingLoader")
+        names_file = ld2 is not None and any(isinstance(c, ast.Call) and call_name(c) == "partial" and len(c.args) == 2
+                                              and ast.unparse(c.args[0]) == "_optimized_cache_from_source" and ast.unparse(c.args[1]) == "self._typechecker.get_hash()"
+                                              for c in ast.walk(ld2))
+        if emb and filled and md5 and gh_ok and names_file:
+            h["keyChain"] = "md5-everywhere"
     fi = find_def(tree, "_JaxtypingFinder", "should_instrument")
     if fi is not None:
         tests = [n.test for n in ast.walk(fi) if isinstance(n, ast.If)]
@@ -786,6 +888,8 @@ namespace JV.Generated
 def hookDefDecorator : String := {lean_str(h['defDecorator'])}
 def hookClassDecorator : String := {lean_str(h['classDecorator'])}
 def hookCopiesLocation : Bool := {lean_bool(h['copiesLocation'])}
+/-- both `compile` calls of the loader pass `dont_inherit=True` -/
+def hookCompileIsolated : Bool := {lean_bool(h['compileIsolated'])}
 def hookImportRule : String := {lean_str(h['importRule'])}
 def hookVisitors : List String := {lean_list([lean_str(v) for v in h['visitors']])}
 def hookShouldInstrument : String := {lean_str(h['shouldInstrument'])}
@@ -793,6 +897,8 @@ def hookInsertsAtFront : Bool := {lean_bool(h['insertsAtFront'])}
 def hookUninstallRemoves : Bool := {lean_bool(h['uninstallRemoves'])}
 def hookOnlySourceLoaders : Bool := {lean_bool(h['onlySourceLoaders'])}
 def cachePatchScope : String := {lean_str(h['patchScope'])}
+/-- decorator lookup key = table key = md5 of the typechecker string = key in the bytecode file name -/
+def hookKeyChain : String := {lean_str(h['keyChain'])}
 def cacheTagHasChecker : Bool := {lean_bool(h['tagHasChecker'])}
 def cacheTagVersion : Nat := {h['tagVersion']}
 
